@@ -562,4 +562,9 @@ def run(chk):
     chk.guard(r02_6, chk)
     chk.guard(r02_7, chk)
     chk.guard(r02_8, chk)
+    from .common import conversion_is_a_read
+
+    def conv_r02_9(c):
+        conversion_is_a_read(c, "R02.9")
+    chk.guard(conv_r02_9, chk)
     chk.assume("IERS readme.finals2000A column layout; rotation sequences of Vallado (IAU-76/FK5) and IERS Conventions 2010 (CIO based)")
